@@ -717,7 +717,11 @@ class Exec:
             x, y = as_real(a), as_real(b)
             self.oblige(st, f"L{self.cur_line}.divisor_nonzero", y != 0)
             self.note_float("true division `/` evaluated in exact real arithmetic")
-            return VReal(x / y)
+            if z3.is_rational_value(z3.simplify(y)) or z3.is_int_value(z3.simplify(y)):
+                return VReal(x / y)
+            # symbolic divisor: a function symbol defined by  y != 0 => rdiv(x, y) * y == x  (plus two consequences
+            # stated as axioms: x/x == 1, and 0 <= x <= y => 0 <= x/y <= 1) - keeps the solver out of nonlinear search
+            return VReal(TH.rdiv(x, y))
         if real:
             x, y = as_real(a), as_real(b)
             self.note_float("float arithmetic evaluated in exact real arithmetic")
